@@ -12,7 +12,7 @@ use proptest::strategy::ValueTree;
 use proptest::test_runner::{Config, RngAlgorithm, TestRng, TestRunner};
 use serde::{Deserialize, Serialize};
 use serde_json::json;
-use std::process::Command;
+use std::process::{Command, Stdio};
 
 // ------------------------------------------------------------------------------------------
 // building the front ends from /repo's working tree
@@ -880,4 +880,128 @@ pub fn check_cli_flags(ctx: &Ctx, cli: &str, c: &CliCase, idx: usize, st: &mut S
         st.label(&format!("cli file checked, flags ext={} buffer={}", c.allow_ext as u8, c.allow_buffer as u8));
     }
     Ok(())
+}
+
+// ------------------------------------------------------------------------------------------
+// C14 through the CLI: a batch process's peak memory must not grow with the number of pickles
+// ------------------------------------------------------------------------------------------
+
+#[derive(Clone, Debug, Serialize, Deserialize)]
+pub struct RssCase {
+    pub protocol: u8,
+    pub seed: u64,
+    pub min: usize,
+    pub max: usize,
+    pub small: usize,
+    pub large: usize,
+    pub rayon_threads: u8,
+}
+
+/// (peak resident set in KiB as reported by /usr/bin/time, total bytes written)
+fn batch_peak(ctx: &Ctx, cli: &str, c: &RssCase, samples: usize, tag: &str) -> Result<(u64, u64), String> {
+    let dir = format!("{}/work/c14-rss-{}-{}", ctx.verif_dir, std::process::id(), tag);
+    let _ = std::fs::remove_dir_all(&dir);
+    std::fs::create_dir_all(&dir).map_err(|e| e.to_string())?;
+    let rss_file = format!("{}/rss", dir);
+    let out = Command::new("/usr/bin/time")
+        .args(["-f", "%M", "-o", &rss_file, cli, "--dir", &format!("{}/out", dir), "--samples", &samples.to_string()])
+        .args(["--protocol", &c.protocol.to_string(), "--seed", &c.seed.to_string(), "--min-opcodes", &c.min.to_string(), "--max-opcodes", &c.max.to_string()])
+        .env("RAYON_NUM_THREADS", c.rayon_threads.to_string())
+        .stdout(Stdio::null())
+        .stderr(Stdio::null())
+        .status()
+        .map_err(|e| format!("/usr/bin/time: {}", e));
+    let res = (|| {
+        let st = out?;
+        if !st.success() {
+            return Err(format!("the batch run failed ({})", st));
+        }
+        let rss: u64 = std::fs::read_to_string(&rss_file).map_err(|e| e.to_string())?.lines().last().unwrap_or("").trim().parse().map_err(|_| "unreadable %M".to_string())?;
+        let mut total = 0u64;
+        let mut files = 0usize;
+        for e in std::fs::read_dir(format!("{}/out", dir)).map_err(|e| e.to_string())?.filter_map(|e| e.ok()) {
+            total += e.metadata().map(|m| m.len()).unwrap_or(0);
+            files += 1;
+        }
+        if files != samples {
+            return Err(format!("{} files for {} samples", files, samples));
+        }
+        Ok((rss, total))
+    })();
+    let _ = std::fs::remove_dir_all(&dir);
+    res
+}
+
+pub fn check_cli_rss(ctx: &Ctx, cli: &str, c: &RssCase, st: &mut Stats) -> Result<(), Fail> {
+    let (rss_small, _) = batch_peak(ctx, cli, c, c.small, "s").map_err(|e| Fail::new("harness:rss", e))?;
+    let (rss_large, total) = batch_peak(ctx, cli, c, c.large, "l").map_err(|e| Fail::new("harness:rss", e))?;
+    let growth_kib = rss_large.saturating_sub(rss_small);
+    st.evaluations += 2;
+    st.add("CLI batch runs measured (peak RSS)", 2);
+    st.sample(|| json!({"cli_batch": format!("P{} seed {} ops {}..{} workers {}", c.protocol, c.seed, c.min, c.max, c.rayon_threads), "samples": [c.small, c.large], "peak_rss_kib": [rss_small, rss_large], "bytes_written_large": total}));
+    if total < 32 << 20 {
+        return Err(Fail::new("harness:rss", format!("the large batch wrote only {} bytes: too little to tell retention from noise", total)));
+    }
+    st.nontrivial(util::digest_str(&format!("rss{}{}{}", c.protocol, c.seed, c.large)));
+    // a process that keeps what it generated needs `total` more bytes; one that releases each pickle needs none.
+    // Half of `total` (>= 16 MiB) is far above allocator and thread-count noise (a few MiB).
+    if growth_kib * 1024 > total / 2 {
+        return ctx.fail(
+            st,
+            Fail::new(
+                "cli-batch-memory-grows-with-samples",
+                format!(
+                    "CLI batch mode, protocol {} seed {} opcodes {}..{} with {} workers: peak resident memory is {} KiB for {} samples but {} KiB for {} samples ({} KiB more; the larger batch wrote {} KiB of pickles): memory is not released per pickle",
+                    c.protocol, c.seed, c.min, c.max, c.rayon_threads, rss_small, c.small, rss_large, c.large, growth_kib, total / 1024
+                ),
+            ),
+        );
+    }
+    Ok(())
+}
+
+pub fn run_c14_cli(ctx: &Ctx, out: &mut Outcome) {
+    if out.failed() || out.inconclusive.is_some() {
+        return;
+    }
+    if !std::path::Path::new("/usr/bin/time").exists() {
+        out.assumptions.push("CLI batch memory was not measured: /usr/bin/time is missing".into());
+        return;
+    }
+    let cli = match build_cli(ctx) {
+        Ok(c) => c,
+        Err(e) => {
+            out.inconclusive = Some(e);
+            return;
+        }
+    };
+    let protos: Vec<u8> = if ctx.thorough() { vec![0, 2, 3, 5] } else { vec![(ctx.seed % 6) as u8, ((ctx.seed + 3) % 6) as u8] };
+    for (i, p) in protos.into_iter().enumerate() {
+        let c = RssCase { protocol: p, seed: ctx.seed.wrapping_mul(31).wrapping_add(i as u64), min: 1500, max: 2500, small: 300, large: if ctx.thorough() { 24_000 } else { 6_000 }, rayon_threads: if i % 2 == 0 { 16 } else { 4 } };
+        let mut st = Stats::default();
+        let r = check_cli_rss(ctx, &cli, &c, &mut st);
+        // keep the measurements visible among the (capped) evidence samples
+        for smp in st.samples.drain(..) {
+            out.stats.samples.insert(0, smp);
+        }
+        out.stats.samples.truncate(crate::runner::MAX_SAMPLES);
+        out.stats.merge(st);
+        match r {
+            Ok(()) => {}
+            Err(f) if f.sig.starts_with("harness:") => {
+                out.inconclusive = Some(f.msg);
+                return;
+            }
+            Err(f) => {
+                out.violation = Some(Violation { fail: f, case: json!({"cli_rss": c}) });
+                return;
+            }
+        }
+    }
+}
+
+pub fn replay_cli_rss(ctx: &Ctx, c: &RssCase) -> Result<(), Fail> {
+    let cli = build_cli(ctx).map_err(|e| Fail::new("harness:build", e))?;
+    let mut st = Stats::default();
+    check_cli_rss(ctx, &cli, c, &mut st)
 }
